@@ -15,7 +15,7 @@ run with recording stand-ins, plus every sub-value of the matchee).  `(pred id m
 MatchesPredicate(<harness predicate>, <message with one / no / two conversions or empty>): the table is
 the predicate's own truth value, the `message % (matchee,)` step is modelled in Lean.
 """
-import copy, doctest, os, random, re, stat, sys, tarfile, tempfile, warnings
+import copy, doctest, functools, operator, zlib, os, random, re, stat, sys, tarfile, tempfile, warnings
 from harness.core import Prop
 
 EXC = {'BaseException': BaseException, 'Exception': Exception, 'TypeError': TypeError,
@@ -390,6 +390,14 @@ def _p_is_none(x):
 PREDS = [_p_falsy, _p_never, _p_is_none]
 PRED_MSG = {'one': '%s is not ok', 'zero': 'not ok', 'empty': '', 'two': '%s and %s'}
 
+def pred_msg(pred_id, kind):
+    """the message of a MatchesPredicate leaf; predicate 1 uses the bare "%s" as its one-conversion message (its
+    mismatch on the matchee '' has the EMPTY description)"""
+    if kind == 'one' and pred_id == 1:
+        return '%s'
+    return PRED_MSG[kind]
+
+
 # which kind of matchee each catalog row is meant for (generator hint only)
 OPQ_FOR = {'str': [0, 1, 3, 4, 20, 21], 'bytes': [2], 'path': list(range(5, 15)) + [12, 22, 22, 23, 23, 24, 25, 26] + list(range(27, 32)),
            'fn': [15, 16, 17], 'int': [18, 19]}
@@ -439,6 +447,8 @@ class C06(Prop):
         'no bool values (True == 1), no objects with a dishonest or non-Boolean ==: Equals/Contains/SameMembers simply inherit the behaviour of == / in / bool() of such objects (match() propagates the ValueError of an array-like comparison); 0-ary combinators, empty containers and 0 / None as expected values are in the universe',
         'dict keys are one-letter strs, ints, bytes, None and tuples of ints / one-letter strs (mixed freely: keys of different types cannot be ordered with each other, nor can (1, \'a\') and (\'a\', 1)); dicts are built with the keys in a canonical order and objects/exceptions/callables are interned per case, so that == and `is` are structural equality in the model',
         'opaque leaves (MatchesRegex, DocTestMatches, filesystem matchers, Warnings/IsDeprecated/WarningMessage, MatchesPredicate[WithParams]) are tested against an independent oracle, not proved',
+        'the files of the scratch directory contain no CR: FileContains reads in text mode with universal newlines, so a file containing \\r\\n or \\r is compared after translation to \\n (it never matches its own contents) - recorded, not repaired (open(path, newline="") would change what CRLF files written on Windows match)',
+        'build B of every expression shares one Python object between equal sub-terms (MatchesSetwise(one, one), MatchesAll(m, m), ...): verdicts must not depend on sharing; values outside a leaf matcher\'s domain raise rather than mismatch (modelled: the propagated class)',
         'the scratch directory of the filesystem leaves holds a setuid file (4755), a setgid file (2644), a sticky directory (1777) besides plain modes; the permission oracle is stat.S_IMODE read back from the path',
         'the two builds of an expression differ in the iteration order of set(<matchers of a MatchesSetwise>), forced by re-allocating the matcher objects until list(set(..)) has the order given in the input (the verdict must not depend on it)',
         'MatchesSetwise asks every matcher about every value once, value by value (the first exception propagates); the pairing algorithm itself is abstracted to its outcome',
@@ -494,6 +504,18 @@ class C06(Prop):
 
     # ----- building the real matchers
     def build_m(self, t, ctx, which, junk, rec=None):
+        """build 0 (A): every sub-term is its own Python object, MatchesSetwise children re-allocated until a hash set of
+        them iterates in the order `ka`; build 1 (B): equal sub-terms are ONE shared Python object (stock matchers are
+        stateless: the verdict of an expression must not depend on whether equal parts are one object)"""
+        if which == 1 and rec is None:
+            memo = ctx.__dict__.setdefault('shared', {})
+            k = repr(t)
+            if k not in memo:
+                memo[k] = self._build_m(t, ctx, which, junk, rec)
+            return memo[k]
+        return self._build_m(t, ctx, which, junk, rec)
+
+    def _build_m(self, t, ctx, which, junk, rec=None):
         import testtools.matchers as M
         B = lambda x: self.build_m(x, ctx, which, junk, rec)
         V = lambda x: build_v(x, ctx)
@@ -519,7 +541,16 @@ class C06(Prop):
         if h == 'containsAll':
             return M.ContainsAll([V(x) for x in t[1:]])
         if h == 'isinst':
-            return M.IsInstance(*[self.pytype(x) for x in t[1:]])
+            types = [self.pytype(x) for x in t[1:]]
+            # isinstance() also takes a nested tuple or a union: same predicate, another way to write it
+            form = zlib.crc32(repr(t).encode()) % 4 if len(types) >= 2 else 0
+            if form == 1:
+                return M.IsInstance(tuple(types))
+            if form == 2:
+                return M.IsInstance(functools.reduce(operator.or_, types))
+            if form == 3:
+                return M.IsInstance(types[0], tuple(types[1:]))
+            return M.IsInstance(*types)
         if h == 'len':
             return M.HasLength(t[1])
         if h == 'always':
@@ -551,7 +582,7 @@ class C06(Prop):
                 return Recorder(real, log, t[1] in OPQ_FOR['path'])
             return real
         if h == 'pred':
-            real = M.MatchesPredicate(PREDS[t[1]], PRED_MSG[t[2]])
+            real = M.MatchesPredicate(PREDS[t[1]], pred_msg(t[1], t[2]))
             if rec is not None:
                 return Recorder(real, rec.setdefault(('pred', t[1]), []))
             return real
@@ -568,9 +599,10 @@ class C06(Prop):
         if h == 'listwise':
             return M.MatchesListwise([B(x) for x in t[2:]], first_only=t[1])
         if h == 'setwise':
-            keys = t[1] if which == 0 else t[2]
             children = [B(x) for x in t[3:]]
-            desired = sorted(range(len(children)), key=lambda i: (keys[i], i))
+            if which == 1:
+                return M.MatchesSetwise(*children)      # shared children stay shared
+            desired = sorted(range(len(children)), key=lambda i: (t[1][i], i))
             return M.MatchesSetwise(*self.force_order(children, desired, junk))
         if h == 'struct':
             return M.MatchesStructure(**{key(a): B(x) for a, x in t[1:]})
@@ -789,15 +821,16 @@ class C06(Prop):
 
     def enumerate(self, tier):
         vals = [['i', 1], ['i', 2], ['s', 97], ['l'], ['l', ['i', 1]], ['l', ['i', 1], ['i', 2]], ['l', ['i', 2], ['i', 1]],
-                ['d', [0, ['i', 1]]], None, ['d', [['ki', 1], ['i', 1]], [0, ['i', 2]]], ['t', ['i', 1], ['i', 2]]]
-        leaves = [['eq', ['i', 1]], ['eq', ['i', 2]], ['lt', ['i', 2]], ['always'], ['never'], ['len', 2], ['contains', ['i', 1]],
+                ['d', [0, ['i', 1]]], None, ['d', [['ki', 1], ['i', 1]], [0, ['i', 2]]], ['t', ['i', 1], ['i', 2]], ['l', ['i', 1], ['i', 1]], ['b', 97]]
+        leaves = [['eq', ['i', 1]], ['eq', ['i', 2]], ['lt', ['i', 2]], ['always'], ['never'], ['len', 2], ['contains', ['i', 1]], ['contains', ['i', 256]],
                   ['isinst', 'int'], ['any', ['eq', ['i', 1]], ['eq', ['i', 2]]]]
         unary = [lambda a: ['not', a], lambda a: ['allmatch', a], lambda a: ['anymatch', a], lambda a: ['annot', a],
                  lambda a: ['after', 'wrap', True, a], lambda a: ['listwise', False, a], lambda a: ['setwise', [0], [0], a],
+                 lambda a: ['setwise', [0, 1], [1, 0], a, a], lambda a: ['all', False, a, a],
                  lambda a: ['dict', 'exact', [0, a]], lambda a: ['dict', 'contains', [0, a]], lambda a: ['dict', 'containedBy', [0, a]]]
         binary = [lambda a, b: ['all', False, a, b], lambda a, b: ['all', True, a, b], lambda a, b: ['any', a, b],
                   lambda a, b: ['listwise', False, a, b], lambda a, b: ['listwise', True, a, b],
-                  lambda a, b: ['setwise', [0, 1], [1, 0], a, b], lambda a, b: ['dict', 'exact', [0, a], [1, b]], lambda a, b: ['dict', 'contains', [['ki', 1], a], [0, b]],
+                  lambda a, b: ['setwise', [0, 1], [1, 0], a, b], lambda a, b: ['setwise', [0, 1, 2], [2, 1, 0], a, a, b], lambda a, b: ['dict', 'exact', [0, a], [1, b]], lambda a, b: ['dict', 'contains', [['ki', 1], a], [0, b]],
                   lambda a, b: ['allmatch', ['any', a, b]], lambda a, b: ['not', ['all', False, a, b]]]
         for v in vals:
             for a in leaves:
@@ -879,6 +912,16 @@ def pairing_case(r):
         acc = acc[:-1]
     elif x < 0.29:
         acc.append({r.randrange(n)})
+    dup = r.random()
+    if dup < 0.25:           # a repeated value wants a repeated matcher: equal sub-terms (one shared object in build B)
+        j = r.randrange(len(acc))
+        vals = vals + [vals[min(acc[j])]] if acc[j] else vals
+        acc = acc + [acc[j]]
+    elif dup < 0.32:         # repeated matcher without a second value / repeated value without a second matcher
+        if r.random() < 0.5:
+            acc = acc + [acc[r.randrange(len(acc))]]
+        else:
+            vals = vals + [vals[r.randrange(len(vals))]]
 
     def matcher(a):
         a = sorted(a)
@@ -887,8 +930,10 @@ def pairing_case(r):
         if len(a) == 1 and r.random() < 0.6:
             return ['eq', vals[a[0]]]
         return ['any'] + [['eq', vals[k]] for k in a]
-    ms = [matcher(a) for a in acc]
+    made = {}
+    ms = [made.setdefault(tuple(sorted(a)), matcher(a)) for a in acc]      # equal acceptance sets: equal terms
     r.shuffle(ms)
+    n = len(vals)
     order = list(range(n))
     r.shuffle(order)
     ka = list(range(len(ms)))
